@@ -69,12 +69,13 @@ int main() {
             const auto seed_a = static_cast<std::uint32_t>(in.next()), seed_b = static_cast<std::uint32_t>(in.next());
             const PeerId ida = in.id32(), idb = in.id32();
             const i64 iva = in.next(), ivb = in.next();
+            const i64 cda = in.next(), cdb = in.next();
             const auto hsa = static_cast<i64>(in.u64()), hsb = static_cast<i64>(in.u64());
             const i64 n = in.next();
             Config ca{}; ca.identity_seed = seed_a; ca.handshake_pow_difficulty = 2; ca.key_rotation_interval = std::chrono::seconds(iva);
-            ca.relay_enabled = false; ca.storage_persistent_enabled = false;
+            ca.relay_enabled = false; ca.storage_persistent_enabled = false; ca.handshake_cooldown = std::chrono::seconds(cda);
             Config cb{}; cb.identity_seed = seed_b; cb.handshake_pow_difficulty = 2; cb.key_rotation_interval = std::chrono::seconds(ivb);
-            cb.relay_enabled = false; cb.storage_persistent_enabled = false;
+            cb.relay_enabled = false; cb.storage_persistent_enabled = false; cb.handshake_cooldown = std::chrono::seconds(cdb);
             hv::g_now_ns = std::min(hsa, hsb);
             // the nodes own live sessions with reader threads: they are never destroyed
             auto* A = new Node(ida, ca); auto* B = new Node(idb, cb);
@@ -105,6 +106,13 @@ int main() {
                 const i64 who = in.next();
                 const auto t = static_cast<i64>(in.u64());
                 hv::g_now_ns = t;
+                if (who >= 2) {
+                    // the same handshake (public key, nonce) as before reaches the node again
+                    const bool ok = who == 2 ? A->perform_handshake(idb, B->public_identity(), *wb)
+                                             : B->perform_handshake(ida, A->public_identity(), *wa);
+                    observe(ok);
+                    continue;
+                }
                 Node& X = (who == 0) ? *A : *B;
                 const PeerId& other = (who == 0) ? idb : ida;
                 const auto before = TA::km_key(X, other);
